@@ -365,11 +365,18 @@ CLAIMED["C03"] = {
     "weighted mixture, logW = logU - logQ -- carried through "
     "OrderedSamples.add_samples by the position maps proved in C04 "
     "(strengthened with a surjectivity clause).",
-    "note": "ASSUMED (trusted contracts, listed in the evidence): the rows "
-    "returned by draw_n_samples / ImportanceFlowProposal.draw satisfy the "
-    "row invariant for the current weights (the rejection loop of draw and "
-    "compute_log_Q are not under contract), rescale = one abstract map "
-    "with its log-Jacobian, get_proposal_log_prob(k) = LPX(k, .). Not "
+    "note": "Also proved: ImportanceFlowProposal.compute_log_Q (2-D table "
+    "built column by column: column 0 = initial proposal, column j = flow "
+    "j-1 + Jacobian; row-wise weighted logsumexp; raises exactly in the "
+    "three documented cases) and ImportanceFlowProposal.draw (rejection "
+    "loop with a loop invariant over the accumulated rows: every kept row "
+    "is in the unit hypercube, carries its own density row -- the same "
+    "boolean mask is applied to samples and table -- logQ from "
+    "compute_log_Q and logW = logU - logQ; exactly n rows are returned). "
+    "ASSUMED (trusted contracts, listed in the evidence): "
+    "draw_n_samples adds only the likelihood to what draw returns, "
+    "rescale / inverse_rescale = one abstract bijection with its "
+    "log-Jacobians, get_proposal_log_prob(k) = LPX(k, .). Not "
     "decided: that samples lie in the unit hypercube and that logL equals "
     "the model's value (C10 proves the batch evaluation), finalise / "
     "adjust_final_samples / resume, update_sample_counts (bincount), "
